@@ -32,7 +32,7 @@ META = {
 
 NODES = [("t0", "AAC", 0), ("r0", "GGT", 3), ("p0", "AC", 6), ("q0", "TTTT", None), ("r1", "CA", 8), ("u0", "G", 10)]
 STAGS = [[], ["xx:i:5", "yy:Z:hello"], ["zz:Z:a:b"]]
-LTAGS = [[], ["L1:i:7", "L2:Z:abc"]]
+LTAGS = [[], ["L1:i:7", "L2:Z:inverted alt  allele"]]
 SELF = [None, ("q0", "+", "q0", "+"), ("q0", "+", "q0", "-"), ("q0", "-", "q0", "-")]
 
 
